@@ -1,0 +1,77 @@
+//go:build verif
+
+// Contracts for package parse, checked by /verif/gvc (comment-only file).
+
+package parse
+
+// The metavariable section is re-scanned from a scratch buffer; every line of that buffer is mapped
+// back to the patch-file position of the line it was copied from, so that diagnostics name the
+// user's file, line and column (C19).
+//@ func (p *parser) parseMeta(i, c) (m, err)
+//@   requires c != nil && p.fset != nil
+//@   requires typing: forall i int {c.Meta[i]} :: 0 <= i && i < len(c.Meta) ==> c.Meta[i] != nil
+//@   at call (*go/token.File).AddLineColumnInfo assert [C19] scratch-line-mapped-to-its-patch-position: arg1 == line.Offset && arg2 == ret("(*go/token.FileSet).Position", 0).Filename && arg3 == ret("(*go/token.FileSet).Position", 0).Line && arg4 == ret("(*go/token.FileSet).Position", 0).Column
+//@   at call (*go/token.File).AddLineColumnInfo set mappedLines = mappedLines + 1
+//@   ensures [C19] every-scratch-line-is-mapped: mappedLines == old(mappedLines) + len(ret("parse/section.ToBytes", 0, 1))
+//@   loop 0
+//@     invariant [C19] mappedLines == old(mappedLines) + #k
+
+// ---- metavariable declarations: a token-stream parser (C08 termination, C19 positions) -----------------
+
+//@ func (p *metaParser) onError(pos, msg)
+//@   assigns p.failed, p.errors, elems(p.errors)
+//@   ensures p.failed && len(p.errors) == old(len(p.errors)) + 1
+//@   ensures p.errors.arr == old(p.errors.arr) || fresh(p.errors.arr)
+
+// Diagnostics of the declaration parser are posted at the position of the current token.
+//@ func (p *metaParser) errf(msg, args)
+//@   requires p.fset != nil
+//@   at call (*parse.metaParser).onError assert [C19] reported-at-the-offending-token: arg1 == fsPosition(p.fset, p.pos)
+//@   assigns p.failed, p.errors, elems(p.errors)
+//@   ensures p.failed && len(p.errors) == old(len(p.errors)) + 1
+//@   ensures p.errors.arr == old(p.errors.arr) || fresh(p.errors.arr)
+
+//@ func (p *metaParser) next
+//@   requires p.scanner != nil
+//@   assigns p.pos, p.tok, p.text, p.failed, p.errors, elems(p.errors), scanLeft
+//@   ensures scanLeft >= 0
+//@   ensures [C08] old(scanLeft) > 0 ==> scanLeft == old(scanLeft) - 1 && p.tok != 1
+//@   ensures [C08] old(scanLeft) <= 0 ==> scanLeft == 0 && p.tok == 1
+//@   ensures p.errors.arr == old(p.errors.arr) || fresh(p.errors.arr)
+//@   ensures old(p.failed) ==> p.failed
+
+//@ func (p *metaParser) parseIdent() (id)
+//@   requires p.scanner != nil && p.fset != nil
+//@   assigns p.pos, p.tok, p.text, p.failed, p.errors, elems(p.errors), scanLeft
+//@   ensures scanLeft >= 0
+//@   ensures [C08] old(scanLeft) > 0 ==> scanLeft == old(scanLeft) - 1 && p.tok != 1
+//@   ensures [C08] old(scanLeft) <= 0 ==> scanLeft == 0 && p.tok == 1
+//@   ensures [C19] id != nil ==> id.NamePos == old(p.pos) && id.Name == old(p.text)
+//@   ensures id == nil ==> p.failed
+//@   ensures p.errors.arr == old(p.errors.arr) || fresh(p.errors.arr)
+//@   ensures old(p.failed) ==> p.failed
+
+//@ func (p *metaParser) parseDecl() (d)
+//@   requires p.scanner != nil && p.fset != nil && scanLeft >= 0
+//@   assigns p.pos, p.tok, p.text, p.failed, p.errors, elems(p.errors), scanLeft
+//@   ensures scanLeft >= 0
+//@   ensures [C08] consumes-a-token: old(scanLeft) > 0 ==> scanLeft < old(scanLeft)
+//@   ensures [C08] old(scanLeft) <= 0 ==> scanLeft == 0 && p.tok == 1
+//@   ensures d == nil ==> p.failed
+//@   ensures p.errors.arr == old(p.errors.arr) || fresh(p.errors.arr)
+//@   ensures old(p.failed) ==> p.failed
+//@   loop 0
+//@     invariant scanLeft >= 0 && scanLeft <= old(scanLeft)
+//@     invariant p.errors.arr == old(p.errors.arr) || fresh(p.errors.arr)
+//@     invariant old(p.failed) ==> p.failed
+//@     invariant d.Names.arr == 0 || fresh(d.Names.arr)
+//@     decreases scanLeft + ite(p.tok == 1, 0, 1)
+
+//@ func (p *metaParser) parse() (m)
+//@   requires p.scanner != nil && p.fset != nil && scanLeft >= 0
+//@   assigns p.pos, p.tok, p.text, p.failed, p.errors, elems(p.errors), scanLeft
+//@   loop 0
+//@     invariant scanLeft >= 0
+//@     invariant p.errors.arr == old(p.errors.arr) || fresh(p.errors.arr)
+//@     invariant m.Vars.arr == 0 || fresh(m.Vars.arr)
+//@     decreases scanLeft + ite(p.tok == 1, 0, 1)
